@@ -34,13 +34,14 @@ M = [
     ("macs_swapped_client_ipv6", "C07", "tlexport/output_builder.py",
      "                packet = Ether(src=self.client_mac_addr, dst=self.server_mac_addr) / IPv6(src=self.client_ip,\n                                                                                        dst=self.server_ip) / TCP(\n                    dport=self.server_port, sport=self.client_port, flags='PA', seq=self.client_seq,",
      "                packet = Ether(src=self.server_mac_addr, dst=self.client_mac_addr) / IPv6(src=self.client_ip,\n                                                                                        dst=self.server_ip) / TCP(\n                    dport=self.server_port, sport=self.client_port, flags='PA', seq=self.client_seq,"),
-    ("timestamp_index_zero_server", "C07", "tlexport/output_builder.py",
-     "            self.out.append((packet, ts[i]))\n            self.out.append((packet_ack, ts[i]))\n\n    def build_client_packet",
-     "            self.out.append((packet, ts[0]))\n            self.out.append((packet_ack, ts[0]))\n\n    def build_client_packet"),
+    ("timestamp_of_first_record_for_server", "C07", "tlexport/output_builder.py",
+     "            if record[2]:\n                self.build_server_packet(decrypted, ts)",
+     "            if record[2]:\n                self.build_server_packet(decrypted, [self.ts_zero] * len(ts))"),
     ("handshake_time_last_packet", "C07", "tlexport/output_builder.py",
      "                self.ts_zero = record[1].metadata[0].timestamp", "                self.ts_zero = record[1].metadata[-1].timestamp"),
     ("only_first_dsb_used", "C09", "tlexport/main.py",
-     "        if ts == -1:\n            keylog.extend(", "        if ts == -1:\n            if len(keylog) > 0:\n                continue\n            keylog.extend("),
+     "            # decryption secrets block: key log text, not a packet (it must not be parsed as an Ethernet frame)\n            keylog.extend(",
+     "            # decryption secrets block: key log text, not a packet (it must not be parsed as an Ethernet frame)\n            if len(keylog) > 0:\n                continue\n            keylog.extend("),
     ("crlf_not_stripped", "C09", "tlexport/keylog_reader.py",
      "    key_str = key_str.replace(\"\\r\", \"\")\n", "    key_str = key_str\n"),
     ("portmap_trailing_comma", "C10", "tlexport/main.py",
@@ -86,12 +87,6 @@ M = [
     ("malformed_record_aborts_again", "C03", "tlexport/session.py",
      "        try:\n            self.handle_tls_record(record, isserver)\n        except Exception as e:\n            logging.warning(f\"Could not handle malformed TLS record: {e}\")",
      "        try:\n            self.handle_tls_record(record, isserver)\n        except ValueError as e:\n            logging.warning(f\"Could not handle malformed TLS record: {e}\")"),
-    ("stale_keys_shared_between_sessions", "C03,C04", "tlexport/session.py",
-     "        secrets = []\n        for secret in self.keylog:\n            if secret.client_random.lower() == self.client_random.hex().lower():",
-     "        secrets = []\n        for secret in self.keylog:\n            if secret.client_random.lower()[:4] == self.client_random.hex().lower()[:4]:"),
-    ("cut_partial_record_flushed", "C08,C03", "tlexport/session.py",
-     "            if total_packet_len - index < 5:\n                need_data = True\n                break\n\n            record_len = packet_data[index + 3: index + 5]\n            record_len = int.from_bytes(record_len, 'big') + 5\n\n            index += record_len\n\n        if not need_data:\n            index = 0\n            while index != total_packet_len:\n                metadata = []\n                record_len = packet_data[index + 3: index + 5]\n                record_len = int.from_bytes(record_len, 'big') + 5\n                for packet_range in packet_ranges:\n                    if index < packet_range[1] and index + record_len > packet_range[0]:\n                        metadata.append(packet_range[2])\n\n                binary = packet_data[index:index + record_len]\n\n                tls_record = TlsRecord(binary, metadata, True)\n                self.server_tls_records.append(tls_record)",
-     "            if total_packet_len - index < 5:\n                need_data = True\n                break\n\n            record_len = packet_data[index + 3: index + 5]\n            record_len = int.from_bytes(record_len, 'big') + 5\n\n            index += record_len\n\n        if index > total_packet_len and total_packet_len > 16000:\n            need_data = False\n\n        if not need_data:\n            index = 0\n            while index < total_packet_len:\n                metadata = []\n                record_len = packet_data[index + 3: index + 5]\n                record_len = int.from_bytes(record_len, 'big') + 5\n                for packet_range in packet_ranges:\n                    if index < packet_range[1] and index + record_len > packet_range[0]:\n                        metadata.append(packet_range[2])\n\n                binary = packet_data[index:index + record_len]\n\n                tls_record = TlsRecord(binary, metadata, True)\n                self.server_tls_records.append(tls_record)"),
 ]
 
 
